@@ -174,13 +174,39 @@ def r14_3(prog, out):
             ent = [e.bb for e in prog.effects(b.id) if e.touches(reg) and e.kind in ("read", "iter", "handle", "read_first", "read_last") or
                    (e.touches(reg) and e.lib.split("::")[-1] in ("iter", "values", "keys", "get", "into_iter"))]
         sp = [s for s in bi.spawns if s.task and ds & set(prog.cone(s.task, follow=("call", "closure", "poll", "spawn")))]
+        where = b.id
+        if ent and not sp:
+            # the round is an iterator chain: the spawn sits in a closure handed to for_each / map
+            for cid in prog.facts.descendants(b.id):
+                cb = prog.facts.body(cid)
+                if cb is None or cb.coroutine:
+                    continue
+                csp = [s for s in prog.info(cid).spawns if s.task and ds & set(prog.cone(s.task, follow=("call", "closure", "poll", "spawn")))]
+                if csp:
+                    sp, where = csp, cid
         if ent and sp:
-            rounds.append((b.id, ent, sp))
+            rounds.append((b.id, ent, sp, where))
     if not rounds:
         out.violation("push-round", "", "no push round found that reads the registry and spawns dispatches: registered subscriptions are never pushed")
-    for bid, ent, sp in rounds:
+    for bid, ent, sp, where in rounds:
         bi = prog.info(bid)
         key = "round-over-registry:%s" % prog.short(bid)
+        if where != bid:
+            # spawn inside a closure of the round: what the task is built from, resolved through the closure's captures and
+            # the element the adapter hands it
+            wi = prog.info(where)
+            t = wi.call_at(sp[0].bb)
+            s = sl.of_resolved(where, t.args[-1])
+            chain_calls = {c for bb2, t2 in bi.calls() for c in [t2.callee.path]}
+            from_registry = any(c.startswith(A.ty("PushRegistry") + "::") for c in s.calls | {t2.callee.target or "" for bb2, t2 in bi.calls()}) or reg in s.fields
+            looked_up = any(c.endswith("SubscriptionManager::get_subscription") for c in s.calls) or any(
+                (t3.callee.target or "").endswith("SubscriptionManager::get_subscription") for cid3 in prog.facts.descendants(bid) if prog.info(cid3) is not None
+                for bb3, t3 in prog.info(cid3).calls())
+            if looked_up and from_registry:
+                out.holds(key, wi.loc(sp[0].bb), "each dispatch task is built from a registry entry and a manager lookup of that name (iterator form)")
+            else:
+                out.violation(key, wi.loc(sp[0].bb), "the pushed subscriptions are not taken from the push registry")
+            continue
         # the spawn's subscription argument derives from a manager lookup keyed by a registry entry
         t = bi.call_at(sp[0].bb)
         s = sl.of(bid, t.args[-1])
